@@ -63,7 +63,19 @@ func instrumented(p *types.Package) bool {
 func main() {
 	repo := flag.String("repo", "/repo", "eino checkout")
 	out := flag.String("out", "", "output directory")
+	patch := flag.String("patchdir", "", "directory of replacement files overlaid on the repo (development aid)")
 	flag.Parse()
+	overlay := map[string][]byte{}
+	if *patch != "" {
+		filepath.Walk(*patch, func(p string, fi os.FileInfo, err error) error {
+			if err == nil && !fi.IsDir() && strings.HasSuffix(p, ".go") {
+				rel, _ := filepath.Rel(*patch, p)
+				b, _ := os.ReadFile(p)
+				overlay[filepath.Join(*repo, rel)] = b
+			}
+			return nil
+		})
+	}
 	if *out == "" {
 		fmt.Fprintln(os.Stderr, "need -out")
 		os.Exit(2)
@@ -71,8 +83,9 @@ func main() {
 	cfg := &packages.Config{
 		Mode: packages.NeedName | packages.NeedFiles | packages.NeedCompiledGoFiles | packages.NeedSyntax |
 			packages.NeedTypes | packages.NeedTypesInfo | packages.NeedImports,
-		Dir:   *repo,
-		Tests: false,
+		Dir:     *repo,
+		Overlay: overlay,
+		Tests:   false,
 		Env:   append(os.Environ(), "GOFLAGS=-mod=mod", "GOPROXY=off", "GOSUMDB=off", "GOTOOLCHAIN=local"),
 	}
 	pkgs, err := packages.Load(cfg, "./...")
